@@ -320,8 +320,10 @@ def run_runs(case):
     import vworld
     rng = random.Random(case['seed'])
     prefix = 'vwo%d' % case['idx']
+    # (a third of these worlds have instance layers with names that are no
+    # identifiers: the layer names travel to the subprocesses and back)
     layers = gen.random_layer_graph(rng, nmax=6, nmin=3, p_edge=0.4,
-                                    p_hook=0.5)
+                                    p_hook=0.5, p_exotic=0.35)
     owners = [ls['name'] for ls in layers if rng.random() < 0.75]
     if len(owners) < 2:
         owners = [ls['name'] for ls in layers][:3]
